@@ -149,7 +149,9 @@ fn run_shard(ctx: &mut Ctx) {
 fn budget(prop: &str, tier: Tier) -> f64 {
     let _ = prop;
     match tier {
-        Tier::Quick => 40.0,
+        // the quick tier is bounded by its fixed workload (5-30 s on an idle machine); the time cap only matters on a
+        // heavily loaded one, where the same workload must still complete
+        Tier::Quick => 150.0,
         Tier::Thorough => std::env::var("RLMON_THOROUGH_S").ok().and_then(|s| s.parse().ok()).unwrap_or(180.0),
     }
 }
